@@ -12,7 +12,8 @@ LEVEL_TEXT = (
     "prompt_layout (for AOTP and AOP): _trim_if_unsolved_maze(_sequence_tokens(...)) - the real bodies - is the full layout for a solved maze, the layout up to TARGET_END for a targeted maze and "
     "[ADJLIST_START, *adjacency, ADJLIST_END] for an untargeted one, never raising, provided no region token is itself one of the eight delimiters (the real constants of maze_dataset.constants). "
     "EDGE SET: EdgeSubsets.ConnectionEdges._get_edges lists precisely the selected edge set - every row a lattice edge inside the grid whose connection bit is the selected kind (connections, or walls with walls=True), "
-    "lesser endpoint first, every such edge in some row, none in two (through the adjacency-list contract connection_list_to_adj_list, proved under C13; grids up to 127x127). "
+    "lesser endpoint first, every such edge in some row, none in two (through the adjacency-list contract connection_list_to_adj_list, proved under C13; grids up to 127x127); EdgePermuters.BothCoords._permute lists the edges it is given followed by the same edges with their "
+    "coordinates exchanged (`in both orientations`). "
     "DECODABLE REGIONS: lemma regions_roundtrip - token_utils.get_adj_list_tokens / get_origin_tokens / get_target_tokens / get_path_tokens(trim_end=True) (real bodies) recover from a full AOTP sequence exactly "
     "the four region lists it was built from (non-empty adjacency, origin and target regions: tokens_between refuses an empty slice). "
     "The composition of the region tokenizers themselves (dynamic dispatch, coordinate tokens, the Distance vocabulary lookup) is outside the verified subset and is decided by the bounded stand-in, "
@@ -29,7 +30,7 @@ PROVE = [(TU, "get_cardinal_direction"), (TU, "get_relative_direction"), (MT, "S
          (TU, "tokens_between"), (MT, "PromptSequencers.AOTP._sequence_tokens"), (MT, "PromptSequencers.AOP._sequence_tokens"),
          ("/verif/contracts/lemmas_src.py", "prompt_layout"), ("/verif/contracts/lemmas_src.py", "prompt_layout_aop"),
          ("/verif/contracts/lemmas_src.py", "regions_roundtrip"),
-         ("maze_dataset/token_utils.py", "connection_list_to_adj_list"), (MT, "EdgeSubsets.ConnectionEdges._get_edges")]
+         ("maze_dataset/token_utils.py", "connection_list_to_adj_list"), (MT, "EdgeSubsets.ConnectionEdges._get_edges"), (MT, "EdgePermuters.BothCoords._permute")]
 ASSUMPTIONS = ["region token lists contain none of the eight region delimiters (coordinate, connector, direction and distance tokens are other vocabulary entries: checked by the bounded decoder, not proved)", "consecutive solution cells are lattice-adjacent (what SolvedMaze solutions are); start_index + 1 < len(solution)"]
 EXPLANATION = "see DESIGN.md C06"
 
